@@ -237,6 +237,12 @@ func cmdCheck(args []string) int {
 	for range targets {
 		<-done
 	}
+	// lemmas routed to this property
+	for _, lem := range e.specs.Lemmas {
+		if hasProp(lem.Props, id) && (onlyRe == nil || onlyRe.MatchString("lemma."+lem.Name)) {
+			jobs = append(jobs, &job{key: "lemma." + lem.Name, res: e.verifyLemma(lem, []string{id})})
+		}
+	}
 	// collect obligations of this property
 	var obs []*Oblig
 	for _, j := range jobs {
